@@ -1,7 +1,7 @@
-\* one session, all interleavings, repaired code
+\* one session, all interleavings, repaired code: empty and non-empty messages, two per direction (thorough tier)
 CONSTANTS
   Sessions = {1}
-  Sizes = {0, 1, 2}
+  Sizes = {0, 1}
   MaxUp = 2
   MaxDown = 2
   ChanCap = 1
